@@ -697,6 +697,28 @@ fn value_types_part(res: &mut PartResult) {
             (tracing::info_span!("v", big = u128::MAX, e = Empty), vec![("big", u128::MAX.to_string())]),
             (tracing::info_span!("v"), vec![]),
         ];
+        // a field whose Debug impl fails part-way (writes some text, then panics; caught): a span creation and a
+        // record() that fail like this must leave nothing behind for the fields rendered afterwards on this thread
+        struct Exploding(u32);
+        impl std::fmt::Debug for Exploding {
+            fn fmt(&self, f: &mut std::fmt::Formatter<'_>) -> std::fmt::Result {
+                write!(f, "Exploding {{ partial: {}", self.0)?;
+                std::panic::resume_unwind(Box::new("Debug impl fails part-way"));
+            }
+        }
+        let _ = std::panic::catch_unwind(std::panic::AssertUnwindSafe(|| {
+            let sp = tracing::info_span!("boom", x = ?Exploding(1));
+            drop(sp);
+        }));
+        let survivor = tracing::info_span!("after", later = Empty, d = ?Dbg(9));
+        let _ = std::panic::catch_unwind(std::panic::AssertUnwindSafe(|| {
+            survivor.record("later", tracing::field::debug(Exploding(2)));
+        }));
+        let cases: Vec<(Span, Vec<(&str, String)>)> = {
+            let mut c = cases;
+            c.insert(0, (survivor, vec![("d", "Dbg(9)".into())]));
+            c
+        };
         for (span, want) in cases {
             res.executions += 1;
             res.transitions += 1;
